@@ -4,6 +4,7 @@ import (
 	"bytes"
 	"encoding/json"
 	"fmt"
+	"math"
 	"strconv"
 	"time"
 
@@ -95,6 +96,11 @@ func JSONWriteTimeProp(b *[]byte, n string, t time.Time) (notEmpty bool) {
 func JSONWriteDurationProp(b *[]byte, n string, d time.Duration) (notEmpty bool) {
 	var tb []byte
 	if v, err := xsd.Marshal(d); err == nil {
+		if s := string(v); s == "PT" || s == "-PT" {
+			// less than a second: the xsd marshaller writes no designator at all, which is not a valid xsd:duration
+			v = append(v, strconv.FormatFloat(math.Abs(d.Seconds()), 'f', -1, 64)...)
+			v = append(v, 'S')
+		}
 		JSONWrite(&tb, '"')
 		JSONWrite(&tb, v...)
 		JSONWrite(&tb, '"')
